@@ -83,3 +83,7 @@ package maven
 
 //@ func (*VersionRange).String
 //@   ensures text: result == arg0.original   [C18]
+
+// ---- qualifier spelling (C12): case-insensitive; a, b, m and cr are aliases; ga, final and release are the release itself
+//@ func normalizeQualifier
+//@   ensures aliases: result == (strings.ToLower(s) == "a" ? "alpha" : (strings.ToLower(s) == "b" ? "beta" : (strings.ToLower(s) == "m" ? "milestone" : (strings.ToLower(s) == "cr" ? "rc" : ((strings.ToLower(s) == "ga" || strings.ToLower(s) == "final" || strings.ToLower(s) == "release") ? "" : strings.ToLower(s))))))   [C12]
